@@ -115,7 +115,7 @@ func SliceSort(elem types.Type) *Sort {
 	s := &Sort{Kind: KDT, Name: key}
 	tm.sorts[key] = s
 	s.Ctors = []*Ctor{{Name: "mk:" + key, Sort: s, Fields: []CField{
-		{key + ".len", SInt}, {key + ".off", SInt}, {key + ".arr", ArraySort(SInt, es)},
+		{key + ".len", SInt}, {key + ".off", SInt}, {key + ".arr", ArraySort(SInt, es)}, {key + ".nil", SBool},
 	}}}
 	return s
 }
@@ -130,8 +130,13 @@ func SliceOff(s *Term) *Term {
 }
 func SliceArr(s *Term) *Term { return SelField(s.Sort.Ctors[0], 2, s) }
 func MkSlice(sort *Sort, ln, off, arr *Term) *Term {
-	return MkCtor(sort.Ctors[0], ln, off, arr)
+	return MkCtor(sort.Ctors[0], ln, off, arr, TFalse)
 }
+
+// SliceIsNil: the nil flag of a slice value (a nil slice has length 0; an empty slice need not be nil).
+func SliceIsNil(s *Term) *Term { return SelField(s.Sort.Ctors[0], 3, s) }
+
+func isSliceSort(s *Sort) bool { return s.Kind == KDT && strings.HasPrefix(s.Name, "Slice<") }
 func SliceAt(s, i *Term) *Term { return Select(SliceArr(s), Add(SliceOff(s), i)) }
 
 // maxLen: upper bound assumed on every slice length / offset (T10: < 2^40 elements).
@@ -364,6 +369,10 @@ func zeroOfSort(s *Sort, t types.Type) *Term {
 	case KDT:
 		if strings.HasPrefix(s.Name, "Ptr<") || strings.HasPrefix(s.Name, "Iface<") {
 			return MkCtor(s.Ctors[0])
+		}
+		if strings.HasPrefix(s.Name, "Slice<") {
+			c := s.Ctors[0]
+			return MkCtor(c, IntC(0), IntC(0), ConstArray(c.Fields[2].Sort, zeroOfSort(c.Fields[2].Sort.Elem, nil)), TTrue)
 		}
 		if strings.HasPrefix(s.Name, "Map<") {
 			c := s.Ctors[0]
